@@ -31,10 +31,10 @@ ASSUMPTIONS = [
     "finite reachability of condition variables is established within 12 iterations (projected value sets stop growing for 4 iterations)",
     "a watchdog expiry is inconclusive, not a refusal",
 ]
-TIMEOUT = {"quick": 25, "thorough": 120}
-DEADLINE = {"quick": 70, "thorough": 1500}
+TIMEOUT = {"quick": 15, "thorough": 120}
+DEADLINE = {"quick": 80, "thorough": 1500}
 MIN_DECIDING = {"quick": 40, "thorough": 300}
-NCASES = {"quick": 170, "thorough": 3000}
+NCASES = {"quick": 130, "thorough": 3000}
 
 
 def generate(seed, tier):
